@@ -54,8 +54,22 @@ def main(tier):
         calls = [(bi, t, rules.callee_name(t["callee"])) for bi, t in prog.calls(f)]
         nn = [c for c in calls if c[2] == "crate::arena::Arena<T>::new_node"]
         ok = len(nn) == 1
-        run.ob("append_value", "append_value calls Arena::new_node exactly once", ok,
-               key="append_value|does not call Arena::new_node exactly once", detail=[c[2] for c in calls], nontrivial="append_value-alloc")
+        own_alloc = rules.APPEND_VALUE in rules.alloc_gates(prog)
+        if own_alloc and not nn:
+            # append_value has an allocation path of its own: the arena half is decided semantically, row by row, like new_node's (C07's obligations on `append_alloc`)
+            arecs = e2props.load(run, ["dev"], ["append_alloc"])
+            na = 0
+            for (prof, entry), recs in sorted(arecs.items()):
+                e2props.undecided(run, recs, prof)
+                for rec in recs:
+                    if rec["exit"] != "return":
+                        continue
+                    na += 1
+                    e2props.alloc_obligations(run, entry, prof, rec, e2props.detail_of(rec), ("append_alloc", rec.get("shape")))
+            run.floor("allocation cases of append_value", na, 2)
+        else:
+            run.ob("append_value", "append_value calls Arena::new_node exactly once", ok,
+                   key="append_value|does not call Arena::new_node exactly once", detail=[c[2] for c in calls], nontrivial="append_value-alloc")
         if ok:
             first = nn[0]
             org = [sorted(map(str, rules.origin(prog, f, a))) for a in first[1]["args"]]
